@@ -45,7 +45,9 @@ type exprChoice struct {
 var litPool = []struct {
 	text string
 	ty   *T
-}{{"a", tStr}, {"b c", tStr}, {"1", tNum}, {"2.5", tNum}, {"true", tBool}, {"false", tBool}, {"null", tNull}, {"0x10", tStr}, {"TRUE", tStr}}
+}{{"a", tStr}, {"b c", tStr}, {"1", tNum}, {"2.5", tNum}, {"true", tBool}, {"false", tBool}, {"null", tNull}, {"0x10", tStr}, {"TRUE", tStr},
+	// spellings that are NOT the keywords true / false / null (the keywords are case-sensitive)
+	{"True", tStr}, {"False", tStr}, {"FALSE", tStr}, {"t", tStr}, {"T", tStr}, {"f", tStr}, {"F", tStr}, {"NULL", tStr}, {"Null", tStr}, {"nil", tStr}, {"yes", tStr}}
 
 const anyExpr = "${{ fromJSON(vars.X) }}"
 
